@@ -82,15 +82,9 @@ def run(ctx):
                                              'hypercube is not stack(I, -I) <= radius: %s' % fmt(ret)[:200], b.span)
 
 
-def axis_bounds(ctx, F):
-    """place_axis_bounds: per bound one row; a finite lower bound l is -x_axis <= -l, a finite upper bound u is x_axis <= u,
-    an infinite bound is the tautology 0 <= 1; axis_bounds / hyperrectangle start from all-zero rows."""
+def _row_table(b, R, IDX, AXIS, LOWER, UPPER, MAT, BIAS):
+    """problems of the bound-placing code in body b: row IDX is -x_AXIS <= -LOWER (0 <= 1 if LOWER is infinite), row IDX+1 is x_AXIS <= UPPER (0 <= 1 if infinite)"""
     from ..effects import assigns
-    b = ctx.body('C14.R3', 'AffFuncBase::place_axis_bounds')
-    if b is None:
-        return
-    R = Resolver(b)
-    IDX, AXIS = ('param', 'idx'), ('param', 'axis')
     one = lambda e: is_call(e, 'One::one')
     negone = lambda e: is_call(e, 'Neg::neg') and one(e[2][0])
     rows = {}
@@ -103,31 +97,50 @@ def axis_bounds(ctx, F):
         inf = [(l[0], l[1][2][0]) for l in lits if is_call(l[1], 'Float::is_infinite')]
         if len(inf) != 1:
             continue
-        which = inf[0][1]
-        key = (fmt(which), inf[0][0] == 'true', fmt(arr))
-        rows[key] = (idx, w.value)
+        which = 'lower' if s(inf[0][1]) == s(LOWER) else ('upper' if s(inf[0][1]) == s(UPPER) else fmt(inf[0][1]))
+        arrn = 'mat' if s(arr) == s(MAT) else ('bias' if s(arr) == s(BIAS) else fmt(arr))
+        rows[(which, inf[0][0] == 'true', arrn)] = (idx, w.value)
+
+    def unchk(x):
+        return x[1] if (x[0] == 'field' and x[2] == '0' and x[1][0] == 'bin') else x
+
     def row_is(idx, plus1):
+        x = unchk(idx)
         if plus1:
-            x = idx[1] if (idx[0] == 'field' and idx[2] == '0') else idx
-            return x[0] == 'bin' and x[1].startswith('Add') and x[2] == IDX and x[3] == ('const', 1)
-        return idx == IDX
+            if IDX[0] == 'const' and x == ('const', IDX[1] + 1):
+                return True
+            return x[0] == 'bin' and x[1].startswith('Add') and s(x[2]) == s(IDX) and x[3] == ('const', 1)
+        return s(idx) == s(IDX) or s(x) == s(unchk(IDX))
     problems = []
-    for bound, plus1, coef_ok, bias_fin in (('lower', False, negone, lambda v: is_call(v, 'Neg::neg') and v[2][0] == ('param', 'lower')),
-                                             ('upper', True, one, lambda v: v == ('param', 'upper'))):
+    for bound, plus1, coef_ok, bias_fin in (('lower', False, negone, lambda v: is_call(v, 'Neg::neg') and s(v[2][0]) == s(LOWER)),
+                                             ('upper', True, one, lambda v: s(v) == s(UPPER))):
         inf_b = rows.get((bound, True, 'bias'))
         fin_m = rows.get((bound, False, 'mat'))
         fin_b = rows.get((bound, False, 'bias'))
         if not (inf_b and row_is(inf_b[0], plus1) and one(inf_b[1]) and (bound, True, 'mat') not in rows):
             problems.append('infinite %s bound is not the tautology row 0 <= 1' % bound)
-        if not (fin_m and fin_m[0][0] == 'agg' and row_is(fin_m[0][2][0], plus1) and fin_m[0][2][1] == AXIS and coef_ok(fin_m[1])):
+        if not (fin_m and fin_m[0][0] == 'agg' and row_is(fin_m[0][2][0], plus1) and s(fin_m[0][2][1]) == s(AXIS) and coef_ok(fin_m[1])):
             problems.append('finite %s bound does not put %s at [row, axis]' % (bound, '-1' if bound == 'lower' else '+1'))
         if not (fin_b and row_is(fin_b[0], plus1) and bias_fin(fin_b[1])):
             problems.append('finite %s bound does not use %s as right-hand side' % (bound, '-lower' if bound == 'lower' else 'upper'))
-    if problems:
-        for p_ in problems:
-            ctx.bad('C14.R3', 'AffFuncBase::place_axis_bounds#rows', p_, b.span)
-    else:
-        ctx.ok('C14.R3', 'AffFuncBase::place_axis_bounds#rows', 'row idx: -x_axis <= -lower (or 0 <= 1 if lower is infinite); row idx+1: x_axis <= upper (or 0 <= 1)', b.span)
+    return problems
+
+
+def axis_bounds(ctx, F):
+    """place_axis_bounds: per bound one row; a finite lower bound l is -x_axis <= -l, a finite upper bound u is x_axis <= u,
+    an infinite bound is the tautology 0 <= 1; axis_bounds / hyperrectangle start from all-zero rows."""
+    P = lambda n: ('param', n)
+    b = F.q('AffFuncBase::place_axis_bounds')
+    helper_ok = None
+    if b is not None:
+        R = Resolver(b)
+        problems = _row_table(b, R, P('idx'), P('axis'), P('lower'), P('upper'), P('mat'), P('bias'))
+        helper_ok = not problems
+        if problems:
+            for p_ in problems:
+                ctx.bad('C14.R3', 'AffFuncBase::place_axis_bounds#rows', p_, b.span)
+        else:
+            ctx.ok('C14.R3', 'AffFuncBase::place_axis_bounds#rows', 'row idx: -x_axis <= -lower (or 0 <= 1 if lower is infinite); row idx+1: x_axis <= upper (or 0 <= 1)', b.span)
     for q, want in (('AffFuncBase::axis_bounds', 'single'), ('AffFuncBase::hyperrectangle', 'loop')):
         c = ctx.body('C14.R3', q)
         if c is None:
@@ -136,6 +149,13 @@ def axis_bounds(ctx, F):
         calls_ = [(bb, Rc.call_args(bb)) for bb, t in c.calls_to('AffFuncBase::place_axis_bounds')]
         rets = [e for _, e in Rc.return_expr()]
         ok = len(calls_) == 1 and len(rets) == 1 and is_call(rets[0], 'AffFuncBase::from_mats')
+        if not calls_ and len(rets) == 1 and is_call(rets[0], 'AffFuncBase::from_mats') and want == 'single':
+            # the bounds are placed in the body itself (no helper call): the same row table with row 0 and the function's own parameters
+            m_, b__ = rets[0][2]
+            probs = _row_table(c, Rc, ('const', 0), P('axis'), P('lower_bound'), P('upper_bound'), m_, b__) if is_call(m_, 'ArrayBase::zeros') and is_call(b__, 'ArrayBase::zeros') else ['not an all-zero system']
+            (ctx.ok if not probs else ctx.bad)('C14.R3', q, 'all-zero system + rows 0/1 placed in the body: -x_axis <= -lower, x_axis <= upper (0 <= 1 for infinite bounds)' if not probs else
+                                                '%s does not place the bounds on rows 0/1 of an all-zero system: %s' % (q, '; '.join(probs)), c.span)
+            continue
         if ok:
             a = calls_[0][1]
             ok = s(a[1]) == s(rets[0][2][0]) and s(a[2]) == s(rets[0][2][1]) and is_call(a[1], 'ArrayBase::zeros') and is_call(a[2], 'ArrayBase::zeros')
